@@ -168,6 +168,59 @@ def run(res, tier):
     res.rule('SNAPSHOT', 'GetDataCallback emits INDEX_OP_CLEARED, then for i ascending from 0 one INDEX_OP_ENTRYINSERTED instruction carrying position i and the name of (*index)[i]', floor=3)
     f = fx.fn1('muscle::StorageReflectSession::GetDataCallback')
     snapshot_rule(res, f, ops)
+    # ---- round-1 additions (seeded changes): the session-side conditions under which the log reaches every observer
+    SRS_ = 'muscle::StorageReflectSession'
+    res.rule('INDEX-OBSERVERS', 'StorageReflectSession: every InsertOrderedChild() it performs passes `this` as the session that announces the index insertion (independently of the quiet flag) and is '
+                                'followed on success by _indexingPresent = true (which is what lets the owner itself receive index snapshots); DataNode::InsertOrderedChild accepts a generated name only '
+                                'after HasChild() said it is free', floor=3)
+    n_ioc = 0
+    for f in sorted((f for f in fx.funcs.values() if f.full and (f.cls or '') == SRS_), key=lambda f: f.line):
+        for c in f.walk():
+            if not (c['k'] == 'CXXMemberCallExpr' and (c.get('q') or '') == 'muscle::DataNode::InsertOrderedChild' and len(c.args()) >= 5):
+                continue
+            n_ioc += 1
+            a3 = A.strip_casts(c.args()[3])
+            ok1 = a3['k'] == 'CXXThisExpr'
+            res.ob('INDEX-OBSERVERS', f.where(c), '%s: InsertOrderedChild announces the index insertion through `this` unconditionally' % f.q.split('::')[-1], ok1, how='4th argument `%s`' % c.args()[3].text(40),
+                   function=f.q, key='INDEX-OBSERVERS|%s|notifier' % f.q,
+                   message='%s passes `%s` as the session that announces the index insertion: when it is NULL (e.g. the quiet flag) the child enters the server\'s index but no INDEX_OP_ENTRYINSERTED '
+                           'is sent, so every replayed index is one entry short from then on' % (f.q, c.args()[3].text(50)))
+            sets = [n for n in f.walk() if n['k'] == 'BinaryOperator' and n.get('op') == '=' and A.strip_casts(n['ch'][0]).get('n') == '_indexingPresent' and A.strip_casts(n['ch'][1]).get('v') in (1, True)]
+            ok2 = bool(sets) and P.must_follow(f, c, sets, escapes=P.escape_edges(f))[0]
+            res.ob('INDEX-OBSERVERS', f.where(c), '%s: a successful InsertOrderedChild is followed by _indexingPresent = true' % f.q.split('::')[-1], ok2, function=f.q,
+                   key='INDEX-OBSERVERS|%s|indexing-present' % f.q,
+                   message='%s inserts an ordered child without setting _indexingPresent: GetDataCallback keeps skipping the session\'s own subtree, so the owner gets no index snapshot when it subscribes '
+                           'to its own node, yet receives the later incremental updates' % f.q)
+    if n_ioc < 2:
+        raise AnalysisBroken('INDEX-OBSERVERS: %d InsertOrderedChild call sites found in StorageReflectSession' % n_ioc)
+    f = fx.fn1('muscle::DataNode::InsertOrderedChild')
+    hc = [c for c in f.walk() if c.is_call() and (c.get('q') or '').endswith('DataNode::HasChild')]
+    gens = [c for c in f.walk() if c.is_call() and re.search(r'(sprintf|snprintf|Sprintf)$', c.get('q') or '')]
+    if not gens:
+        raise AnalysisBroken('INDEX-OBSERVERS: the name generator of InsertOrderedChild was not found')
+    # the buffer that holds the generated name must be tested with HasChild(buf) == false on the edge that leads to its use
+    bufd = set(x['d'] for x in gens[0].args()[0].walk() if x['k'] == 'DeclRefExpr' and 'd' in x)
+    uses = []
+    for n in f.walk():
+        rhs = None
+        if n['k'] == 'CXXOperatorCallExpr' and (n.get('q') or '').endswith('::operator=') and len(n['ch']) >= 3:
+            rhs = n['ch'][2]
+        elif n['k'] == 'BinaryOperator' and n.get('op') == '=':
+            rhs = n['ch'][1]
+        if rhs is not None and any(x['k'] == 'DeclRefExpr' and x.get('d') in bufd for x in rhs.walk()):
+            uses.append(n)
+    okn = bool(uses)
+    for u in uses:
+        g_ok = False
+        p = P.pos_of(f, u)
+        for (c_, t_) in (C.guards_of_block(f, p[0]) if p else []):
+            gn, pol = P.strip_not(f.nodes[c_])
+            if gn.is_call() and (gn.get('q') or '').endswith('DataNode::HasChild') and any(x['k'] == 'DeclRefExpr' and x.get('d') in bufd for x in gn.walk()) and t_ != pol:
+                g_ok = True
+        okn = okn and g_ok
+    res.ob('INDEX-OBSERVERS', f.where(gens[0]), 'InsertOrderedChild uses a generated child name only on the edge where HasChild(name) is false', okn, function=f.q, key='INDEX-OBSERVERS|%s|fresh-name' % f.q,
+           message='DataNode::InsertOrderedChild uses a generated name without checking that no child has it: PutChild then replaces the existing child while its old index entry stays, so the index lists '
+                   'the name twice and one slot refers to a node that is no longer a child')
     res.explanation = ('Static decision, on the resolved AST/CFG of DataNode.cpp and StorageReflectSession.cpp, of the pairing that makes the index update log replayable: %d mutation sites of '
                        'DataNode::_orderedIndex were found; each insert/remove is followed on every non-failure, non-quiet path by the notification with the matching op code and the same position '
                        'expression; nothing outside DataNode writes the index; RemoveChild unlinks the index entry first; the snapshot is clear + in-order inserts with the loop variable as position. '
